@@ -299,7 +299,11 @@ PROPS["C12"] = {
              "character types. Non-trivial = the final object was not yet owner and has >= 3 non-empty components including a host, or borrows from >= 2 source texts; distinct by history"
              " In a quarter of the cases the k-th allocation (k in 1..8) of the final step fails once (default manager, through the redirected libc references): the caller's texts and all other objects must be untouched and everything must still be releasable."
              " One final normalisation in ten uses a mask with bits beyond the documented six (64, 1<<20, 0x80000000, ~63, -1)."),
-    "assumptions": ["a caller does not change an object in place while other live objects borrow from it (histories are generated legal)"],
+    "enumerate": {"huge_components": "6 fixed probes (not sampled): make-owner / normalise(SCHEME) on the URI that '?' + 2^29 resp. 2^30 x 'a' parses to, wchar_t and char; the manager records the sizes asked for; "
+                                      "the copy is checked at 10 positions incl. both ends (F-W1)"},
+    "assumptions": ["a caller does not change an object in place while other live objects borrow from it (histories are generated legal)",
+                    "the huge-component probes set the URI up as the parser would leave it (parse of the prefix '?a', query range extended over the n characters) because this -O1 sanitizer build "
+                    "does not turn the parser's per-character recursion into a loop; regress/C12/F-W1-demo.c.txt performs the real parse with -O2"],
 }
 
 PROPS["C13"] = {
